@@ -254,6 +254,13 @@ func CheckRefAnchors(maxNodes int64) error {
 }
 
 func mustAnchors(c *harness.Check) {
+	for _, s := range corpus.Seeds {
+		rp, _, _, err := ref.ParseFEN(s.FEN)
+		if err != nil || !corpus.Valid(rp) {
+			fmt.Fprintln(os.Stderr, "HARNESS-ERROR: seed is not a well-formed position:", s.FEN)
+			os.Exit(2)
+		}
+	}
 	max := int64(200_000)
 	if c.Thorough() {
 		max = 5_000_000
